@@ -345,15 +345,19 @@ Definition member {R : Type} (dims : list string) (ev : data_d -> option R) (v :
 
 Definition block_dims (is3d : bool) : list string := if is3d then ["z"; "y"; "x"] else ["y"; "x"].
 
+(* xr.Dataset raises on conflicting sizes for a dimension: a variable along `tower` must be as long as the coordinate *)
+Definition sized {X : Type} (n : nat) (o : option (list X)) : option (list X) :=
+  match o with Some l => if List.length l =? n then Some l else None | None => None end.
+
 Definition eval_norm (is3d : bool) (c : ctx) (n : ds_norm) (rs : results) (tws : list tower)
   : option (dataset * list (string * string)) :=
   let bl := member ("time" :: "tower" :: block_dims is3d) (eval_blocks is3d c rs) in
   let tv := member ["time"] (eval_series c rs tws) in
-  let wv := member ["tower"] (eval_series c rs tws) in
   match member ["x"] (eval_coord c) (n_x n), member ["y"] (eval_coord c) (n_y n),
         match n_z n with None => Some None | Some v => option_map (@Some (list A)) (member ["z"] (eval_coord c) v) end,
         member ["time"] (eval_labels c) (n_time n), member ["tower"] (eval_tower_names c rs tws) (n_tower n) with
   | Some x, Some y, Some z, Some tl, Some tn =>
+    let wv := fun v => sized (List.length tn) (member ["tower"] (eval_series c rs tws) v) in
     match bl (n_fp n), bl (n_conc n), tv (n_ustar n), tv (n_mol n), tv (n_ws n), tv (n_wd n),
           wv (n_lat n), wv (n_lon n), wv (n_zm n) with
     | Some fp, Some cc, Some us, Some mo, Some ws, Some wd, Some la, Some lo, Some zm =>
@@ -396,11 +400,11 @@ Definition canon_block (is3d : bool) (ks k : fkey) : data_d :=
         None LByName [IxT; IxTi] GAlways (CBlock k) None.
 Definition canon_met (p : pkey) : data_d := DFill [DNTime] None LByName [IxT] GTi0 (CMet p) None.
 
-Definition canon_norm (is3d : bool) (ks1 ks2 : fkey) : ds_norm :=
+Definition canon_norm (is3d : bool) (m : meta_d) (ks1 ks2 : fkey) : ds_norm :=
   let bd := "time" :: "tower" :: (if is3d then ["z"; "y"; "x"] else ["y"; "x"]) in
   mkNorm (bd, canon_block is3d ks1 KFlx) (bd, canon_block is3d ks2 KConc)
          (["time"], canon_met PUstar) (["time"], canon_met PMol) (["time"], canon_met PWs) (["time"], canon_met PWd)
-         (["tower"], DMeta MByName TLat) (["tower"], DMeta MByName TLon) (["tower"], DMeta MByName TZm)
+         (["tower"], DMeta m TLat) (["tower"], DMeta m TLon) (["tower"], DMeta m TZm)
          (if is3d then (["x"], DCoordIdx GX [I0; I0; IAll]) else (["x"], DCoordIf2 GX [I0; IAll] GX))
          (if is3d then (["y"], DCoordIdx GY [I0; IAll; I0]) else (["y"], DCoordIf2 GY [IAll; I0] GY))
          (if is3d then Some (["z"], DCoordIdx GZ [IAll; I0; I0]) else None)
